@@ -50,6 +50,7 @@ class HashLockstep(LockstepHook):
         if isinstance(self.prefix, str):
             self.prefix = self.prefix.encode()
         self.spec_nodes = w["nodes"]
+        self.errors_become_defaults = bool(ck.get("ignore_exc"))
         for i, n in enumerate(w["nodes"][:len(self.names)]):
             self.nid_of[self.names[i]] = n["id"]
 
@@ -101,21 +102,26 @@ class HashLockstep(LockstepHook):
                                 del self.model.items[wk]
             return
         if not self.started:
-            if rec.step + 1 >= self.start_step:
-                self.started = True
-                m = self._m(world)
-                for n in world.nodes.values():
-                    if n.health == "up":
-                        for k, it in n.snapshot().items():
-                            m.items[k] = [it[0], it[1], it[2], m._newver(), world.clock.now]
-            self.note_keys(rec.method, args)
-            return
+            if rec.step >= self.start_step:
+                self.started = True        # a "wipe" step preceded: every server (and the model) starts empty
+                self._m(world)
+            else:
+                self.note_keys(rec.method, args)
+                return
         pairs = self.note_keys(rec.method, args)
-        if rec.outcome == "raise" and isinstance(rec.exc, OSError):
-            return          # a connection failure surfaced: nothing to compare
         sent = {c[2] for c in rec.commands if c[2] is not None}
         unsent = [k for rk, k in pairs if self.wk(k) not in sent]
         stripped = strip_pairs(rec.method, args)
+        if rec.outcome == "raise" and (isinstance(rec.exc, OSError) or
+                                       type(rec.exc).__name__ == "MemcacheUnexpectedCloseError"):
+            # a connection failure surfaced: no result to compare, but what did reach a server took effect
+            keep = [k for rk, k in pairs if self.wk(k) in sent]
+            if keep and rec.method == "set_many":
+                self._m(world).apply("set_many", [{k: v for k, v in stripped[0].items() if k in keep}] + stripped[1:],
+                                     kwargs)
+            elif keep and rec.method == "delete_many":
+                self._m(world).apply("delete_many", [keep] + stripped[1:], kwargs)
+            return
         if unsent:
             # the owning server is in its retry window: nothing was sent for these keys
             m = rec.method
@@ -195,7 +201,7 @@ class C12(Prop):
 
     def plan(self, tier):
         if tier == "quick":
-            return {"units": 40000, "budget_s": 90, "block": 200}
+            return {"units": 24000, "budget_s": 90, "block": 150}
         return {"units": 1200000, "budget_s": 1500, "block": 400}
 
     def gen(self, rng, idx, tier):
@@ -222,8 +228,10 @@ class C12(Prop):
             ck["use_pooling"] = True
             ck["max_pool_size"] = rng.choice([None, 2])
         degraded = nn >= 2 and rng.random() < 0.25
-        flavour = rng.choice(["evicted", "backoff"]) if degraded else None
+        flavour = rng.choice(["evicted", "backoff", "failing", "revival"]) if degraded else None
         ck["retry_attempts"] = rng.choice([0, 1, 2]) if flavour != "backoff" else rng.choice([1, 2])
+        if degraded and rng.random() < 0.5:
+            ck["ignore_exc"] = True
         spares = []
         if not degraded and rng.random() < 0.3:
             for j in range(rng.randint(1, 2)):
@@ -257,8 +265,23 @@ class C12(Prop):
             vname = names[victim]
             owned = [k for k in keys if refhash.owner(names, split_pair(k)[0]) == vname]
             if owned:
-                steps.append({"t": "node", "id": victim, "health": rng.choice(["refuse", "connect_timeout", "reset"])})
-                if flavour == "evicted":
+                steps.append({"t": "node", "id": victim, "health": rng.choice(["refuse", "connect_timeout", "reset", "eof",
+                                                                                    "blackhole"])})
+                if flavour == "failing":
+                    pass      # the workload itself meets the failing server: first failure, retry window, eviction
+                elif flavour == "revival":
+                    ck["dead_timeout"] = 60
+                    for _ in range(ck["retry_attempts"] + 3):
+                        steps.append({"t": "call", "m": "set", "a": [E(rng.choice(owned)), E(b"pre")],
+                                      "k": {"noreply": False}, "tag": "preamble"})
+                        steps.append({"t": "advance", "dt": 1.5})
+                    steps.append({"t": "node", "id": victim, "health": "up"})
+                    steps.append({"t": "advance", "dt": 2 * 60 + 1})
+                    # the first operation after the server is due back is a multi-key one
+                    ks0 = rng.sample(keys, min(len(keys), rng.randint(1, 6)))
+                    if not any(k in owned for k in ks0):
+                        ks0.append(rng.choice(owned))
+                elif flavour == "evicted":
                     for _ in range(ck["retry_attempts"] + 3):
                         steps.append({"t": "call", "m": "set", "a": [E(rng.choice(owned)), E(b"pre")],
                                       "k": {"noreply": False}, "tag": "preamble"})
@@ -268,7 +291,16 @@ class C12(Prop):
                     # sent for its keys during the workload that follows immediately
                     ck["retry_timeout"] = 30
                     steps.append({"t": "call", "m": "get", "a": [E(rng.choice(owned))], "k": {}, "tag": "preamble"})
+                if flavour in ("evicted", "revival", "backoff"):
+                    steps.append({"t": "wipe"})
                 start = len(steps)
+                if flavour == "revival":
+                    ks0 = list(dict.fromkeys(ks0))
+                    if rng.random() < 0.5:
+                        steps.append({"t": "call", "m": "set_many", "a": [E({k: b"7" for k in ks0})],
+                                      "k": {"noreply": False}})
+                    else:
+                        steps.append({"t": "call", "m": rng.choice(["get_many", "gets_many"]), "a": [E(ks0)], "k": {}})
             else:
                 degraded = False
                 flavour = None
@@ -328,6 +360,13 @@ class C12(Prop):
             steps.append({"t": "call", "m": m, "a": a, "k": k})
             if spares and rng.random() < 0.15:
                 steps.append({"t": "call", "m": "add_server", "a": [E(spares.pop())], "k": {}})
+        if degraded:
+            # a server that swallows requests silently (accept-then-close, blackhole) cannot be noticed by a
+            # noreply store, so stores wait for their replies in these scenarios
+            for st in steps[start:]:
+                if st["t"] == "call" and "noreply" in (st.get("k") or {}):
+                    st["k"]["noreply"] = False
+            ck["default_noreply"] = False
         return [{"property": self.id, "world": w, "steps": steps, "phase2": start, "degraded": degraded,
                  "flavour": flavour, "victim": vname}]
 
@@ -356,6 +395,7 @@ class C12(Prop):
         start = scn.get("phase2", 0)
         degraded = scn.get("degraded") and scn.get("flavour") != "backoff"
         backoff = scn.get("flavour") == "backoff"
+        MUCE = engine.pymemcache.exceptions.MemcacheUnexpectedCloseError
         victim = scn.get("victim")
         agree = {}
         rotation_changed = False
@@ -373,7 +413,7 @@ class C12(Prop):
                 else:
                     out.append(viol("add_server-raised", rec, exc=type(rec.exc).__name__))
                 continue
-            if rec.outcome == "raise" and isinstance(rec.exc, OSError) and (degraded or backoff):
+            if rec.outcome == "raise" and isinstance(rec.exc, (OSError, MUCE)) and (degraded or backoff):
                 continue
             if m == "set_many":
                 ckeys = list(args[0].keys())
@@ -402,7 +442,7 @@ class C12(Prop):
                                     ncmds=len(got), nkeys=len(want)))
             else:
                 # reduced rotation: single- and multi-key paths must still agree with each other
-                if len(got) != len(expected):
+                if len(got) > len(expected) or (len(got) != len(expected) and scn.get("flavour") == "evicted"):
                     out.append(viol("command-count-differs-from-keys", rec, ncmds=len(got), nkeys=len(expected)))
                 by_wk = {}
                 for e in expected:
@@ -456,7 +496,8 @@ class C12(Prop):
     def probe_names(self):
         return ("multi-key-call-spans-3-servers", "server-key-pair-routed", "unix-and-tcp-mixed", "reduced-rotation",
                 "duplicate-key-in-multi-get", "empty-key-collection", "fifty-keys",
-                "server-added-at-run-time", "owning-server-in-retry-window")
+                "server-added-at-run-time", "owning-server-in-retry-window",
+                "workload-meets-failing-server", "multi-key-call-first-after-dead_timeout")
 
     def probes(self, scn, res):
         p = {}
@@ -467,6 +508,10 @@ class C12(Prop):
             p["reduced-rotation"] = 1
         if scn.get("flavour") == "backoff":
             p["owning-server-in-retry-window"] = 1
+        if scn.get("flavour") == "failing":
+            p["workload-meets-failing-server"] = 1
+        if scn.get("flavour") == "revival":
+            p["multi-key-call-first-after-dead_timeout"] = 1
         if any(c.method == "add_server" and c.outcome == "return" for c in res.calls):
             p["server-added-at-run-time"] = 1
         allk = set()
